@@ -486,7 +486,7 @@ class ObjectDomain(LazyGenerators, EffectDomain):
     @classmethod
     def _pure_constructor(cls, expr):
         return isinstance(expr, ast.Call) and (dotted(expr.func) or "").split(".")[-1] in cls._PURE_CONSTRUCTORS and all(
-            isinstance(a, (ast.Constant, ast.Name, ast.Attribute, ast.Tuple, ast.List)) for a in expr.args) and all(k.arg is not None and isinstance(k.value, ast.Constant) for k in expr.keywords)
+            isinstance(a, (ast.Constant, ast.Name, ast.Attribute, ast.Tuple, ast.List)) for a in expr.args) and all(k.arg is not None and isinstance(k.value, (ast.Constant, ast.Name, ast.Attribute)) for k in expr.keywords)
 
     def _module_table(self, interp, name, st, fr):
         """A module-level name bound exactly once, at module level, to a literal table (dict / tuple / list / set whose
